@@ -4,5 +4,5 @@ ID=$1; PROP=${2:-$(python3 -c "import json;print(json.load(open('/verif/seeded/$
 WT=/tmp/seedchk-$ID-$$
 git -C /repo worktree add --detach $WT HEAD >/dev/null 2>&1 || exit 2
 git -C $WT apply /verif/seeded/$ID/patch.diff || { echo "patch does not apply to HEAD"; git -C /repo worktree remove --force $WT; exit 2; }
-VERIF_REPO=$WT timeout 1700 /verif/bin/check $PROP --tier $TIER 2>&1 | grep "VIOLATION\|PASS\|FAIL\|FAILURE" | cut -c1-220
+VERIF_REPO=$WT timeout 1700 /verif/bin/check $PROP --tier $TIER 2>&1 | tee /tmp/seedchk-$ID.log | grep "VIOLATION\|PASS\|FAIL\|FAILURE" | cut -c1-220
 git -C /repo worktree remove --force $WT
